@@ -22,7 +22,10 @@ from . import canon
 
 
 def _clone(n):
-    return copy.deepcopy(n)
+    # not copy.deepcopy: expr_context nodes (ast.Load()) are shared singletons that carry a `_parent` back link from
+    # earlier modules, through which deepcopy would copy whole module trees
+    from .expr import clone
+    return clone(n)
 
 
 def _docless(body):
@@ -344,12 +347,9 @@ def _stores_between(fn, names, attrs, after, before):
     return False
 
 
-def inline_temporaries(tree, modname, table, log):
-    for q, fn in canon._functions(tree, modname):
-        ref = table.get(q)
-        if ref is None and q not in table.get('__functions__', ()):
-            continue
-        ref = ref or {}
+def inline_temporaries(funcs, table, log):
+    for q, fn in funcs:
+        ref = table.get(q) or {}
         ast.fix_missing_locations(fn)
         for _round in range(3):
             if not _inline_temps_once(fn, q, ref, log):
@@ -436,8 +436,29 @@ def apply(tree, modname):
     ref_functions = set(table.get('__functions__', ()))
     if not ref_functions:
         return log
-    inline_helpers(tree, modname, ref_functions, log)
-    inline_temporaries(tree, modname, table, log)
+    funcs = canon._functions(tree, modname)
+    # cheap pre-check: only functions that have a local the reference does not know (or new helpers) are touched
+    has_new_helper = any(q not in ref_functions and '<locals>' not in q and q.rsplit('.', 1)[-1].startswith('_')
+                         and not q.rsplit('.', 1)[-1].startswith('__') for q, _ in funcs)
+    if has_new_helper:
+        inline_helpers(tree, modname, ref_functions, log)
+        funcs = canon._functions(tree, modname)
+    dirty = []
+    for q, fn in funcs:
+        if q not in ref_functions:
+            continue
+        ref = table.get(q) or {}
+        a = fn.args
+        known = set(ref) | {x.arg for x in a.posonlyargs + a.args + a.kwonlyargs}
+        if a.vararg:
+            known.add(a.vararg.arg)
+        if a.kwarg:
+            known.add(a.kwarg.arg)
+        if any(isinstance(x, ast.Name) and isinstance(x.ctx, ast.Store) and x.id not in known for x in ast.walk(fn)):
+            dirty.append((q, fn))
+    if dirty:
+        undo_destructuring(dirty, table, log)
+        inline_temporaries(dirty, table, log)
     canonical_shapes(tree, modname)
     return log
 
@@ -489,28 +510,73 @@ def _loop_to_elt(body, name):
 
 
 def loops_to_comprehensions(tree, log, modname):
-    for q, fn in canon._functions(tree, modname):
-        for parent in ast.walk(fn):
-            for fld in ('body', 'orelse', 'finalbody'):
-                blk = getattr(parent, fld, None)
-                if not isinstance(blk, list) or len(blk) < 2:
-                    continue
-                i = 0
-                while i < len(blk) - 1:
-                    a, b = blk[i], blk[i + 1]
-                    if isinstance(a, ast.Assign) and len(a.targets) == 1 and isinstance(a.targets[0], ast.Name) \
-                            and isinstance(a.value, ast.List) and not a.value.elts and isinstance(b, ast.For) and not b.orelse:
-                        name = a.targets[0].id
-                        uses_in_loop = [x for x in ast.walk(b) if isinstance(x, ast.Name) and x.id == name]
-                        r = _loop_to_elt(b.body, name)
-                        if r is not None and len(uses_in_loop) == sum(1 for x in ast.walk(b) if isinstance(x, ast.Call)
-                                                                       and isinstance(x.func, ast.Attribute) and x.func.attr == 'append'
-                                                                       and isinstance(x.func.value, ast.Name) and x.func.value.id == name):
-                            elt, flt = r
-                            comp = ast.ListComp(elt=elt, generators=[ast.comprehension(target=_clone(b.target), iter=_clone(b.iter),
-                                                                                        ifs=[flt] if flt is not None else [], is_async=0)])
-                            blk[i:i + 2] = [ast.Assign(targets=[ast.Name(id=name, ctx=ast.Store())], value=comp)]
-                            ast.fix_missing_locations(fn)
-                            log.append(('loop-to-comprehension', q, name))
+    for parent in ast.walk(tree):
+        for fld in ('body', 'orelse', 'finalbody'):
+            blk = getattr(parent, fld, None)
+            if not isinstance(blk, list) or len(blk) < 2:
+                continue
+            i = 0
+            while i < len(blk) - 1:
+                a, b = blk[i], blk[i + 1]
+                if isinstance(b, ast.For) and not b.orelse and isinstance(a, ast.Assign) and len(a.targets) == 1 \
+                        and isinstance(a.targets[0], ast.Name) and isinstance(a.value, ast.List) and not a.value.elts:
+                    name = a.targets[0].id
+                    uses_in_loop = [x for x in ast.walk(b) if isinstance(x, ast.Name) and x.id == name]
+                    r = _loop_to_elt(b.body, name)
+                    if r is not None and len(uses_in_loop) == sum(1 for x in ast.walk(b) if isinstance(x, ast.Call)
+                                                                   and isinstance(x.func, ast.Attribute) and x.func.attr == 'append'
+                                                                   and isinstance(x.func.value, ast.Name) and x.func.value.id == name):
+                        elt, flt = r
+                        comp = ast.ListComp(elt=elt, generators=[ast.comprehension(target=_clone(b.target), iter=_clone(b.iter),
+                                                                                    ifs=[flt] if flt is not None else [], is_async=0)])
+                        new_st = ast.Assign(targets=[ast.Name(id=name, ctx=ast.Store())], value=comp)
+                        ast.copy_location(new_st, a)
+                        blk[i:i + 2] = [new_st]
+                        ast.fix_missing_locations(new_st)
+                        log.append(('loop-to-comprehension', modname, name))
+                        continue
+                i += 1
+
+
+def undo_destructuring(funcs, table, log):
+    """`for (a, b), c in it:` with a, b unknown to the reference function -> `for _p, c in it:` and a, b -> _p[0], _p[1]."""
+    for q, fn in funcs:
+        ref = table.get(q) or {}
+        k = 0
+        for node in ast.walk(fn):
+            if isinstance(node, (ast.For, ast.comprehension)) and isinstance(node.target, (ast.Tuple, ast.List)):
+                scope = node if isinstance(node, ast.For) else None
+                for i, el in enumerate(node.target.elts):
+                    if isinstance(el, (ast.Tuple, ast.List)) and el.elts and all(isinstance(x, ast.Name) and x.id not in ref for x in el.elts):
+                        names = [x.id for x in el.elts]
+                        stores = [x for x in ast.walk(fn) if isinstance(x, ast.Name) and isinstance(x.ctx, ast.Store) and x.id in names]
+                        if len(stores) != len(names):
                             continue
-                    i += 1
+                        tmp = f'_p{k}'
+                        k += 1
+                        mapping = {n: ast.Subscript(value=ast.Name(id=tmp, ctx=ast.Load()), slice=ast.Constant(value=j), ctx=ast.Load())
+                                   for j, n in enumerate(names)}
+                        node.target.elts[i] = ast.Name(id=tmp, ctx=ast.Store())
+                        sub = _Subst(mapping)
+                        if scope is not None:
+                            scope.body = [sub.visit(s_) for s_ in scope.body]
+                        else:
+                            comp = _parent_comp(fn, node)
+                            if comp is None:
+                                continue
+                            for fld in ('elt', 'key', 'value'):
+                                if hasattr(comp, fld):
+                                    setattr(comp, fld, sub.visit(getattr(comp, fld)))
+                            for g in comp.generators:
+                                g.ifs = [sub.visit(x) for x in g.ifs]
+                                if g is not node:
+                                    g.iter = sub.visit(g.iter)
+                        log.append(('undo-destructuring', q, ','.join(names)))
+        ast.fix_missing_locations(fn)
+
+
+def _parent_comp(fn, gen):
+    for n in ast.walk(fn):
+        if isinstance(n, (ast.ListComp, ast.SetComp, ast.GeneratorExp, ast.DictComp)) and any(g is gen for g in n.generators):
+            return n
+    return None
